@@ -165,6 +165,10 @@ def exec_job(arg):
     items, run_index = arg
     out = dict(violations=[], notes=[], cases=0, drift=0, sample=None)
     workdir = tlc.new_scratch('c12')
+
+    def violation(tag, desc, case):
+        out['violations'].append((tag, desc, case))
+
     for name, fresh, rep in items:
         wb = WORKBOOKS[name]
         forms = list(W.nodes(wb)['formulas'])
@@ -196,7 +200,7 @@ def exec_job(arg):
                 got = m.validate_calcs(output_addrs=[W.addr(o) for o in rep['outs']],
                                        tolerance=tol)
         except Exception as exc:          # noqa
-            out['violations'].append((f'validate_calcs raised {type(exc).__name__}: {exc}', case))
+            violation('raised', f'validate_calcs raised {type(exc).__name__}: {exc}', case)
             continue
         if out['sample'] is None and perturbed:
             out['sample'] = dict(case, report=repr(got)[:400])
@@ -208,35 +212,37 @@ def exec_job(arg):
         other = set(got) - {'mismatch', 'exceptions', 'not-implemented'}
         # ---- the report relation of the statement ----
         if not perturbed and not broken and got != {}:
-            out['violations'].append((f'consistent workbook, report not empty: {got!r}', case))
+            violation('consistent', f'consistent workbook, report not empty: {got!r}', case)
         if perturbed:
             reach = set(rep['reach'])
             want_calc, stored = fresh[p_cell], W.py_val(p_val)
+            kind = (f'{xl.typeclass(want_calc)} -> '
+                    f'{"empty text" if stored == "" else xl.typeclass(stored)}')
             if p_cell in reach and p_cell not in unevaluable and altered(want_calc, stored, tol):
                 mm = mism.get(p_cell)
                 if mm is None:
-                    out['violations'].append((
-                        f'stored result of {p_cell} altered from {want_calc!r} to {stored!r} '
-                        f'but the report does not name it: {got!r}', case))
+                    violation('not named: ' + kind,
+                              f'stored result of {p_cell} altered from {want_calc!r} to '
+                              f'{stored!r} but the report does not name it: {got!r}', case)
                 elif not (xl.same_value(mm.original, stored) and
                           xl.same_value(mm.calced, want_calc)):
-                    out['violations'].append((
-                        f'{p_cell} reported with (stored, recomputed) = ({mm.original!r}, '
-                        f'{mm.calced!r}), expected ({stored!r}, {want_calc!r})', case))
+                    violation('values: ' + kind,
+                              f'{p_cell} reported with (stored, recomputed) = ({mm.original!r}, '
+                              f'{mm.calced!r}), expected ({stored!r}, {want_calc!r})', case)
             extra = set(mism) - desc_of(wb, p_cell)
             if extra:
-                out['violations'].append((
-                    f'reported cells {sorted(extra)} do not depend on the altered cell '
-                    f'{p_cell}', case))
+                violation('not a dependant',
+                          f'reported cells {sorted(extra)} do not depend on the altered cell '
+                          f'{p_cell}', case)
         elif mism:
-            out['violations'].append((f'nothing altered but mismatches reported: {mism}', case))
+            violation('consistent', f'nothing altered but mismatches reported: {mism}', case)
         for b in broken:
             if b in rep['reach'] and b not in unevaluable:
-                out['violations'].append((
-                    f'{b} cannot be evaluated but is not under exceptions/not-implemented: '
-                    f'{got!r}', case))
+                violation('skipped',
+                          f'{b} cannot be evaluated but is not under exceptions/not-implemented: '
+                          f'{got!r}', case)
         if other:
-            out['violations'].append((f'unknown report sections {other}', case))
+            violation('sections', f'unknown report sections {other}', case)
         # ---- binding: the model's report ----
         model_m = {m_[0]: (W.py_val(m_[1]), W.py_val(m_[2])) for m_ in rep['mism']}
         real_m = {k: (v.original, v.calced) for k, v in mism.items()}
@@ -246,8 +252,35 @@ def exec_job(arg):
                                 f'vs real {real_m} excs {sorted(unevaluable)} for outs '
                                 f'{rep["outs"]} p {rep["p"]} broken {broken} iterate {iterate}')
     out['n_violations'] = len(out['violations'])
-    out['violations'] = out['violations'][:3]
+    # a few of each class (class = which clause, which kind of alteration)
+    kept, per_tag = [], {}
+    for tag, desc, case in out['violations']:
+        per_tag[tag] = per_tag.get(tag, 0) + 1
+        if per_tag[tag] <= 2:
+            kept.append((tag, desc, case))
+    out['violations'] = kept
     return out
+
+
+def split_plan(plan, slots=12):
+    def cost(job):
+        name, n_out, runs = job
+        nf = len(W.nodes(WORKBOOKS[name])['formulas'])
+        return (nf + min(n_out, nf * (nf - 1)) + 1) * sum(len(t) for _, _, t in runs) * nf * nf
+    jobs = list(plan)
+    while len(jobs) < slots:
+        big = max((j for j in jobs if len(j[2]) > 1), key=cost, default=None)
+        if big is None:
+            break
+        name, n_out, runs = big
+        # halves of about equal numbers of configurations
+        half, acc = 1, len(runs[0][2])
+        while half < len(runs) - 1 and 2 * acc < sum(len(t) for _, _, t in runs):
+            acc += len(runs[half][2])
+            half += 1
+        jobs.remove(big)
+        jobs += [(name, n_out, runs[:half]), (name, n_out, runs[half:])]
+    return jobs
 
 
 def run(tier, seed):
@@ -272,9 +305,10 @@ def run(tier, seed):
             plan.append((name, 12,
                          [([], False, [N, Z, 2])] + [(b, False, [N, 2]) for b in singles] +
                          [([], True, [N, Z, 2])] + [(b, True, [N]) for b in singles]))
-    # one TLC run per workbook: the configurations are choices of Init
+    # one TLC run per workbook, the configurations being choices of Init; the
+    # largest ones are halved (by configurations) while processors are left
     models = parallel.run_jobs(model_job, [(name, seed, n_out, runs)
-                                           for name, n_out, runs in plan])
+                                           for name, n_out, runs in split_plan(plan)])
     run_index = {(name, tuple(sorted(b)), it): k
                  for name, _, runs in plan for k, (b, it, _) in enumerate(runs)}
     items, kinds = [], set()
@@ -293,7 +327,7 @@ def run(tier, seed):
     size = -(-len(items) // n_share)
     shares = [(items[i:i + size], run_index) for i in range(0, len(items), size)]
     results = parallel.run_jobs(exec_job, shares)
-    n_viol, n_notes = 0, 0
+    n_viol, n_notes, per_tag = 0, 0, {}
     for r in results:
         v.evaluations += r['cases']
         v.traces += r['cases']
@@ -302,8 +336,9 @@ def run(tier, seed):
             if n_notes < 6:
                 v.note(n)
             n_notes += 1
-        for desc, case in r['violations']:
-            if len(v.violations) < 12:
+        for tag, desc, case in r['violations']:
+            per_tag[tag] = per_tag.get(tag, 0) + 1
+            if per_tag[tag] <= 2:
                 v.violation(desc, case)
         if r['sample']:
             v.sample(r['sample'], limit=3)
